@@ -17,7 +17,12 @@ import (
 // hold no entry that differs from L2's.
 func ZZLockedConcurrent() {
 	nk := rt.Param("nk", 1)
-	multi := rt.Choice("multireader", 2) == 1
+	var multi bool
+	if m := rt.Param("multireader", -1); m >= 0 {
+		multi = m == 1
+	} else {
+		multi = rt.Choice("multireader", 2) == 1
+	}
 	conc := uint8(rt.Param("concurrency", 0))
 	ocMain, slot := orcas.Locked(orcas.L1L2, multi, conc)
 	ocBatch := orcas.LockedWithExisting(orcas.L1L2Batch, slot)
